@@ -34,6 +34,9 @@ HANDLE_GHOST = '''
     spec fn hmax() -> usize;
     proof fn hmax_bound()
         ensures Self::hmax() <= 0xFFFF_FFFFusize;
+    /// ghost: no handle holds an index beyond what its representation can hold
+    proof fn idx_bound(a: Self)
+        ensures a.idx() <= Self::hmax();
     /// ghost: handles are plain wrappers, equal iff their index is equal
     proof fn idx_injective(a: Self, b: Self)
         ensures a.idx() == b.idx() <==> a == b;
@@ -84,6 +87,7 @@ impl vstd::std_specs::cmp::PartialEqSpecImpl for {name} {{
     open spec fn idx(&self) -> usize {{ self.0 as usize }}
     open spec fn hmax() -> usize {{ {rep}::MAX as usize }}
     proof fn hmax_bound() {{}}
+    proof fn idx_bound(a: Self) {{}}
     proof fn idx_injective(a: Self, b: Self) {{}}
     proof fn eq_is_structural() {{}}
 '''
